@@ -107,8 +107,10 @@ Definition rec_enc (s : Z) (r : eres) : rec4 :=
   | EPanic => (E_PANIC, s, 0, 0)
   end.
 
-(* a zero probability inside NonZero: debug builds abort (std's unsafe precondition
-   check is a non-unwinding panic), release builds carry the zero along *)
+(* Before the repair of finding F16 a zero probability could end up inside NonZero (debug
+   builds abort: std's unsafe precondition check is a non-unwinding panic; release builds carry
+   the zero along).  The model now panics there (Proofs/Leaky_nonzero.v), so the DAbort branches
+   below are dead; they are kept so that a return of the defect shows up as a mismatch. *)
 Inductive drec := DRec (r : rec4) | DAbort | DTimeout.
 Definition rec_dec (dbg : bool) (r : dres) : drec :=
   match r with
